@@ -322,6 +322,8 @@ var c18Reviewed = []reviewEntry{
 		"reached only from processMessage when the FSM answered state_signing_partial_signs_collected, a state behind event_dkg_init", premRecover},
 	{re(`^\(\*services/node\.BaseNodeService\)\.ApproveParticipation:decoded-deref:json\(s\.getOperation\(dto\.OperationID\)#0\.Payload\)`),
 		"the payload decoded here is that of an operation taken from the node's own pool, which the node wrote itself from its FSM's response (durable state of the node, not an input)", nil},
+	{re(`^airgapped\.(encrypt|decrypt):makeslice:.*\.NonceSize\(\)$`),
+		"the nonce size of the AEAD (cipher.AEAD.NonceSize) is a small constant of the cipher, not an input", nil},
 	{re(`^\(\*cmd/airgapped\.prompt\)\.(print|println|printf|restoreTerminal|reloadTerminal):panic:`),
 		"terminal write/restore failure of the operator's console, independent of the operation file", nil},
 }
